@@ -1826,3 +1826,68 @@ Proof.
   inversion H as [|r l H1 H2]; subst. rewrite (binary_assert_irrelevant cfg cfg' s o H1).
   f_equal. apply IH. exact H2.
 Qed.
+
+(* C20, guards are pure — the general form: the switch matters only where a type/loop check rejects
+   (there the model under `assertions := false` declines: Unmodelled).  Everywhere else — accepted
+   operations, failing user hooks with their rollback, full parents, wrong lengths / containers — both
+   settings give the same state and the same outcome. *)
+Definition cfg_off : config := {| assertions := false; is_node := true |}.
+
+Lemma set_parent_off cfg ft s c a :
+  snd (bset_parent cfg_off ft s c a) <> Err Unmodelled ->
+  bset_parent cfg ft s c a = bset_parent cfg_off ft s c a.
+Proof.
+  unfold bset_parent. destruct a as [p| |]; cbv zeta.
+  - destruct (bparent_loop s c (Some p)); [cbn; congruence|]. reflexivity.
+  - destruct (bparent_loop s c None); [cbn; congruence|]. reflexivity.
+  - cbn. congruence.
+Qed.
+
+Lemma set_children_off cfg ft s p cont args :
+  snd (bset_children cfg_off ft s p cont args) <> Err Unmodelled ->
+  bset_children cfg ft s p cont args = bset_children cfg_off ft s p cont args.
+Proof.
+  unfold bset_children. destruct cont; try reflexivity; cbv zeta.
+  all: match goal with |- context [negb ?b] => destruct b end; cbn [negb]; try reflexivity.
+  1,2: destruct (bcheck_children s p _ []); [cbn; congruence|reflexivity].
+  destruct args; [|reflexivity].
+  destruct (bcheck_children s p _ []); [cbn; congruence|reflexivity].
+Qed.
+
+Lemma extend_off cfg p : forall cs fts s,
+  snd (bextend_loop cfg_off s p cs fts) <> Err Unmodelled ->
+  bextend_loop cfg s p cs fts = bextend_loop cfg_off s p cs fts.
+Proof.
+  induction cs as [|c t IH]; intros fts s; cbn [bextend_loop]; [reflexivity|].
+  destruct (bset_parent cfg_off (hd NoFault fts) s c (ANode p)) as [s1 o] eqn:E. intros H.
+  assert (E' : bset_parent cfg (hd NoFault fts) s c (ANode p) = (s1, o)).
+  { rewrite <- E. apply set_parent_off. rewrite E. destruct o; [discriminate|exact H]. }
+  rewrite E'. destruct o; [apply IH; exact H|reflexivity].
+Qed.
+
+Theorem binary_guards_pure cfg s o :
+  snd (bstep cfg_off s o) <> Err Unmodelled -> bstep cfg s o = bstep cfg_off s o.
+Proof.
+  unfold bstep. destruct (bop_in_range s o); cbn [negb]; [|reflexivity].
+  destruct o; try reflexivity.
+  - apply set_parent_off.
+  - apply set_children_off.
+  - unfold bset_left. destruct (right_of s p); [apply set_children_off|reflexivity].
+  - unfold bset_right. destruct (left_of s p); [apply set_children_off|reflexivity].
+  - apply extend_off.
+  - unfold bnew. cbv zeta. match goal with |- context [if ?b then _ else _] => destruct b end; [reflexivity|].
+    destruct (bset_parent cfg_off fp (balloc s) (bsize s) par) as [s1 o] eqn:E. intros H.
+    assert (E' : bset_parent cfg fp (balloc s) (bsize s) par = (s1, o)).
+    { rewrite <- E. apply set_parent_off. rewrite E. destruct o; [discriminate|exact H]. }
+    rewrite E'. destruct o; [apply set_children_off; exact H|reflexivity].
+Qed.
+
+(* ... along a history: if the model never declines with the checks off, the whole trace (states and
+   outcomes, hook failures and their rollbacks included) is the same with the checks on *)
+Theorem binary_guards_pure_trace cfg : forall ops s,
+  Forall (fun r => snd r <> Err Unmodelled) (btrace cfg_off s ops) -> btrace cfg s ops = btrace cfg_off s ops.
+Proof.
+  induction ops as [|o t IH]; intros s H; [reflexivity|]. cbn [btrace] in *.
+  inversion H as [|r l H1 H2]; subst. rewrite (binary_guards_pure cfg s o H1).
+  f_equal. apply IH. exact H2.
+Qed.
